@@ -21,12 +21,14 @@
     html_nothing_lost xml_events_are_callbacks
     html_positions_projection xml_positions_projection coalesce_positions_come_from_events
     html_closers_take_last_position xml_text_position
+    html_text_cutting_irrelevant xml_text_cutting_irrelevant
 -/
 import Genshi.Lemmas.ParseHtml
 import Genshi.Lemmas.ParseXml
 import Genshi.Lemmas.ParseTree
 import Genshi.Lemmas.ParseContent
 import Genshi.Lemmas.ParsePos
+import Genshi.Lemmas.ParseSplit
 namespace Genshi.Props.C07
 open Genshi Genshi.Parse
 
@@ -161,6 +163,18 @@ theorem html_nothing_lost (env : Env) (reads : List HtmlRead) (close : List (Ite
   obtain ⟨c1, c2⟩ := eager_html_content env _ [] hnone
   rw [h3 hnone, textOf_coalesce, mainEvents_coalesce]
   exact ⟨c1, c2⟩
+
+/-- **html_text_cutting_irrelevant** (strengthens `html_batching_irrelevant`). `html.parser` cuts
+    character data into `handle_data` calls where the chunks happen to end. The outcome depends only on
+    the callback sequence with adjacent `handle_data` calls merged — neither on the batches nor on how
+    the text was cut. (This is the condition under which the oracle demands chunking invariance of the
+    real parser: equal merged callback traces.) -/
+theorem html_text_cutting_irrelevant (env : Env) (reads reads' : List HtmlRead)
+    (close close' : List (Item HtmlCb))
+    (h : mergeData (htmlData env) (htmlItems reads close) = mergeData (htmlData env) (htmlItems reads' close')) :
+    (htmlParse env reads close).2 = (htmlParse env reads' close').2 ∧
+    ((htmlParse env reads close).2 = none → (htmlParse env reads close).1 = (htmlParse env reads' close').1) :=
+  parse_mergeData_congr (htmlData env) htmlHandler [] _ _ close close' h
 
 /-- every exception the environment can raise below the layer is an `Exception` -/
 def OnlyExceptions (env : Env) (reads : List HtmlRead) (close : List (Item HtmlCb)) : Prop :=
@@ -323,6 +337,13 @@ theorem xml_batching_irrelevant (reads reads' : List XmlRead) (close close' : Li
     · exact noAdjText_coalesceGo true _ none
     · exact noAdjText_coalesceGo false _ none
 
+/-- the same for Expat's `CharacterDataHandler` calls -/
+theorem xml_text_cutting_irrelevant (reads reads' : List XmlRead) (close close' : List (Item XmlCb))
+    (h : mergeData xmlData (xmlItems reads close) = mergeData xmlData (xmlItems reads' close')) :
+    (xmlParse reads close).2 = (xmlParse reads' close').2 ∧
+    ((xmlParse reads close).2 = none → (xmlParse reads close).1 = (xmlParse reads' close').1) :=
+  parse_mergeData_congr xmlData xmlHandler () _ _ close close' h
+
 /-- **xml_errors_are_parseerror_with_line.** The first failure among the concatenated batches decides:
     an `ExpatError` — raised by Expat or by `_handle_other` for an undefined entity — leaves as
     `ParseError` carrying exactly its line and column. -/
@@ -471,6 +492,10 @@ example :
 /-- merging on the tree: two text pieces and a CDATA section next to each other -/
 example : flattenList (mergeForest (toNodesList [XNode.elem ['a'] [] [] [.chars [['x'], ['y']], .chars [['z']]]])) =
     [.start ⟨[], ['a']⟩ [], .text ['x', 'y', 'z'] false, .end_ ⟨[], ['a']⟩] := by decide
+
+/-- `ab` in one call or as `a`, `b` over two reads: hypothesis of `html_text_cutting_irrelevant` -/
+example (env : Env) : mergeData (htmlData env) (htmlItems [.text [.cb (.data ['a'])], .text [.cb (.data ['b']), .cb (.endtag ['p'])]] []) =
+    mergeData (htmlData env) (htmlItems [.text [.cb (.data ['a', 'b']), .cb (.endtag ['p'])]] []) := rfl
 
 /-- positions: two reads, text merged across them keeps the first position, the closers re-use the last -/
 example :
